@@ -14,6 +14,7 @@
  * limitations under the License.
  */
 #include <unifex/inplace_stop_token.hpp>
+#include <unifex/detail/verif_hooks.hpp>
 
 #include <unifex/spin_wait.hpp>
 
@@ -58,7 +59,9 @@ bool inplace_stop_source::request_stop() noexcept {
     bool removedDuringCallback = false;
     callback->removedDuringCallback_ = &removedDuringCallback;
 
+    UNIFEX_VERIF_POINT(101);
     callback->execute();
+    UNIFEX_VERIF_POINT(102);
 
     if (!removedDuringCallback) {
       callback->removedDuringCallback_ = nullptr;
@@ -98,6 +101,7 @@ void inplace_stop_source::unlock(std::uint8_t oldState) noexcept {
 bool inplace_stop_source::try_lock_unless_stop_requested(
     bool setStopRequested) noexcept {
   spin_wait spin;
+  UNIFEX_VERIF_POINT(103);
   auto oldState = state_.load(std::memory_order_relaxed);
   do {
     while (true) {
@@ -141,6 +145,7 @@ bool inplace_stop_source::try_add_callback(
 
 void inplace_stop_source::remove_callback(
     inplace_stop_callback_base* callback) noexcept {
+  UNIFEX_VERIF_POINT(105);
   auto oldState = lock();
 
   if (callback->prevPtr_ != nullptr) {
@@ -154,6 +159,7 @@ void inplace_stop_source::remove_callback(
   } else {
     auto notifyingThreadId = notifyingThreadId_;
     unlock(oldState);
+    UNIFEX_VERIF_POINT(104);
 
     // Callback has either already been executed or is
     // currently executing on another thread.
